@@ -81,12 +81,37 @@ def _regular_under_var(L, under_var=False):
     return any(_regular_under_var(x, uv) for x in L.get("xs", []))
 
 
+def _short_earlier_row(v):
+    """does some list in the nested value v hold a sub-list (or None) that comes BEFORE a longer sub-list?  Only then is there
+    a position that a later row reaches and an earlier row of the same group does not -- the precondition of F07 / F16"""
+    if not isinstance(v, list):
+        return False
+    best = None
+    for e in v:
+        n = len(e) if isinstance(e, list) else (0 if e is None else None)
+        if n is None:
+            continue
+        if best is not None and n > best:
+            return True
+        best = n if best is None else min(best, n)
+    return any(_short_earlier_row(e) for e in v)
+
+
+def _may_have_short_earlier_row(case):
+    try:
+        import replay
+        return _short_earlier_row(replay.abstract_to_list(case["from"]))
+    except Exception:
+        return True            # the operand is not in the abstract encoding (recorded chains): no sharper statement is possible
+
+
 def reduce_nonlocal_two_levels_up(case, why):
     """F07: argmin/argmax along a non-innermost axis of an array with three or more list levels do not count the rows
     that are too short to reach the position (argmax([[],[[1]]],axis=0) gives [[0]], not [[1]]).  (The other half of the
     original F07 -- groups mis-assigned for every reducer -- is repaired by the fix recorded as F55.)"""
     return (case.get("act") == "reduce" and _negaxis(case) >= 2 and case.get("fromty", "").count(" * ") >= 2
-            and case["args"]["reducer"] in ("argmin", "argmax") and why.startswith("value differs"))
+            and case["args"]["reducer"] in ("argmin", "argmax") and why.startswith("value differs")
+            and _may_have_short_earlier_row(case))
 
 
 def reduce_argpos_missing_rows(case, why):
@@ -161,7 +186,7 @@ def argsort_nonlocal_depth3_positions(case, why):
     """F16: argsort along a non-innermost axis of an array with three or more list levels does not count the
     rows that are too short (same root cause as F07): argsort([[],[[1]]], axis=0) gives [[],[[0]]]."""
     return (case.get("act") == "argsort" and _negaxis(case) >= 2 and case.get("fromty", "").count(" * ") >= 2
-            and why.startswith("value differs"))
+            and why.startswith("value differs") and _may_have_short_earlier_row(case))
 
 
 def _nonzero_origin(L):
@@ -515,7 +540,16 @@ def concat_multidim_numpy_with_regular(case, why):
     if case.get("act") != "concat" or not why.startswith("identical types must merge into one type"):
         return False
     ls = _wcase_layouts(case)
-    return len(ls) >= 2 and any(_has_multidim_numpy(L) for L in ls) and not all(_has_multidim_numpy(L) for L in ls)
+
+    def meets(A, B):
+        """walking both operands down together: a multidimensional NumpyArray node facing a list-class node"""
+        if not isinstance(A, dict) or not isinstance(B, dict):
+            return False
+        for P, Q in ((A, B), (B, A)):
+            if P.get("c") == "Numpy" and len(P.get("shape", [0])) > 1 and Q.get("c") != "Numpy":
+                return True
+        return "x" in A and "x" in B and meets(A["x"], B["x"])
+    return len(ls) >= 2 and any(meets(ls[i], ls[j]) for i in range(len(ls)) for j in range(i + 1, len(ls)))
 
 
 def ellipsis_through_records(case, why):
